@@ -28,6 +28,14 @@ MANIFEST = dict(
 
 def check_case(case, impl, model):
     out = []
+    fx = case.get("expect_fdx")
+    if fx and impl and impl[0].startswith("fdx "):
+        got = impl[0][4:]
+        if fx["accept"] and got != fx["val"]:
+            out.append(("spec", 0, "json_object_from_fd_ex(depth %d): nesting %d < limit must be accepted with value %s: got %s" % (fx["D"], fx["nest"], fx["val"], got)))
+        if not fx["accept"] and got != "-":
+            out.append(("spec", 0, "json_object_from_fd_ex(depth %d): nesting %d >= limit must be refused: got %s" % (fx["D"], fx["nest"], got)))
+        return out
     ex = case.get("expect")
     if not ex:
         return out
@@ -84,6 +92,11 @@ def gen(rng, tier):
             continue
         accept = a["nest"] < D
         base = {"accept": accept, "nest": a["nest"], "D": D, "val": a["dump"], "deep": a["deep"]}
+        if (D > 20 or len(t) < 40) and t.rstrip(b" \t\r\n")[-1:] in (b"]", b"}"):
+            # (containers only: a bare number at top level is not complete before end of input)
+            # the same limit handed to json_object_from_fd_ex
+            yield {"lines": ["fdx %d %s" % (D, hexs(t))], "noshrink": True,
+                   "expect_fdx": {"accept": accept, "val": a["dump"], "D": D, "nest": a["nest"]}}
         for flags in (0, 1):
             ex = dict(base); ex["lines"] = [(1, len(t))]
             yield {"lines": ["new %d %d" % (D, flags), "pz " + hexs(t)], "keep": 2, "noshrink": True, "expect": ex}
